@@ -376,3 +376,60 @@ pub fn rss_gb() -> f64 {
         .map(|pages| pages * 4096.0 / 1e9)
         .unwrap_or(0.0)
 }
+
+// ---------------------------------------------------------------------------
+// process-wide caches of signature validation verdicts (BLS checks dominate run time;
+// signatures are deterministic functions of key and payload, so caching by bytes is exact)
+
+use alpenglow::consensus::{Cert, ValidatedCert, ValidatedVote, Vote};
+use std::collections::HashMap;
+use std::sync::OnceLock;
+
+type VoteCache = Mutex<HashMap<Vec<u8>, Option<ValidatedVote>>>;
+type CertCache = Mutex<HashMap<Vec<u8>, Option<ValidatedCert>>>;
+static VOTE_CACHE: OnceLock<Vec<VoteCache>> = OnceLock::new();
+static CERT_CACHE: OnceLock<Vec<CertCache>> = OnceLock::new();
+
+fn shard(bytes: &[u8]) -> usize {
+    let mut x = 0usize;
+    for b in bytes.iter().rev().take(8) {
+        x = x.wrapping_mul(31).wrapping_add(*b as usize);
+    }
+    x % 64
+}
+
+/// `ValidatedVote::try_new` with a cache keyed by (epoch tag, wire bytes).
+pub fn validate_vote_cached(v: &Vote, epoch: &Epoch) -> Option<ValidatedVote> {
+    let caches = VOTE_CACHE.get_or_init(|| (0..64).map(|_| Mutex::new(HashMap::new())).collect());
+    let mut key = wincode::serialize(v).expect("ser");
+    key.extend_from_slice(&epoch_tag(epoch));
+    let c = &caches[shard(&key)];
+    if let Some(x) = c.lock().unwrap().get(&key) {
+        return x.clone();
+    }
+    let x = ValidatedVote::try_new(v.clone(), &epoch.info).ok();
+    c.lock().unwrap().insert(key, x.clone());
+    x
+}
+
+/// `ValidatedCert::try_new` with a cache keyed by (epoch tag, wire bytes).
+pub fn validate_cert_cached(v: &Cert, epoch: &Epoch) -> Option<ValidatedCert> {
+    let caches = CERT_CACHE.get_or_init(|| (0..64).map(|_| Mutex::new(HashMap::new())).collect());
+    let mut key = wincode::serialize(v).expect("ser");
+    key.extend_from_slice(&epoch_tag(epoch));
+    let c = &caches[shard(&key)];
+    if let Some(x) = c.lock().unwrap().get(&key) {
+        return x.clone();
+    }
+    let x = ValidatedCert::try_new(v.clone(), &epoch.info).ok();
+    c.lock().unwrap().insert(key, x.clone());
+    x
+}
+
+fn epoch_tag(epoch: &Epoch) -> Vec<u8> {
+    let mut t = Vec::new();
+    for s in &epoch.stakes {
+        t.extend_from_slice(&s.to_le_bytes());
+    }
+    t
+}
